@@ -11,14 +11,15 @@ import sys, gc, types, copy, collections
 
 ID = 'C08'
 
-BOUNDS = {'quick': dict(depth=4), 'thorough': dict(depth=7)}
+BOUNDS = {'quick': dict(depth=4, global_depth=8), 'thorough': dict(depth=7, global_depth=12)}
 
 
 def describe(tier):
     b = BOUNDS[tier]
     return dict(
         rule='E5 BFS over call histories: operation menu of %d real expand() calls (%s) on shared objects A, T, O (Config object), B, '
-             'C1, C2 (caches); one BFS per first operation, depth <= %d or fixpoint; histories replayed in freshly imported modules; '
+             'C1, C2 (caches), G (global config); one global BFS from the fresh state to the fixpoint, all histories of length 2, and (thorough) '
+             'one BFS per first operation, depth <= %d or fixpoint; histories replayed in freshly imported modules; '
              'states deduplicated by canonical form. Leak clause: every operation repeated 4 times from the fresh state. '
              'Abstraction validation: a history that reaches an already known state (depth <= 2) is probed with every operation '
              'and must give the representative\'s results.' % (len(OPS), ', '.join(o[0] for o in OPS), b['depth']),
@@ -47,6 +48,11 @@ TEXT_CFG = {'text': ['x', 'y'], 'snippets': {'bad': 'x["'}}
 USER_SNIPPETS = {'mten': 'margin:10px', 'gp': 'grid-gap:10'}
 
 
+GLOBAL_CFG = {'markup': {'options': {'output.attributeQuotes': 'single'}, 'snippets': {'zz': 'zzz[g=m]'}},
+              'xml': {'options': {'output.selfClosingStyle': 'xhtml'}, 'snippets': {'zz': 'zzz[g=x]'}},
+              'stylesheet': {'options': {'stylesheet.intUnit': 'pt'}}}
+
+
 def make_env(em):
     return {
         'A': {},
@@ -55,7 +61,12 @@ def make_env(em):
         'B': {'options': {'bem.enabled': True}},
         'C1': {},
         'C2': {},
+        'G': copy.deepcopy(GLOBAL_CFG),
     }
+
+
+def FIELD(index, placeholder, **kw):
+    return '${%d:%s}' % (index, placeholder) if placeholder else '${%d}' % index
 
 
 def css(em, env, abbr, cache=None, options=None, snippets=None, context=None):
@@ -89,12 +100,20 @@ OPS = [
     ('css_user_pt', lambda em, e: css(em, e, 'gp', 'C2', {'stylesheet.intUnit': 'pt'}, USER_SNIPPETS)),
     ('css_nouser', lambda em, e: css(em, e, 'mten+gp', 'C2')),
     ('css_nocache', lambda em, e: css(em, e, 'zom+p10+mten')),
+    ('css_fn_args', lambda em, e: css(em, e, 'trf-s(2)+trf:translate(10, 20)', 'C1')),
+    ('css_fn', lambda em, e: css(em, e, 'trf-s+trf:trs+lg(to right, #0)', 'C1', {'output.field': FIELD})),
     ('css_section', lambda em, e: css(em, e, '@kf+m10', 'C1', None, None, '@@section')),
     ('css_property', lambda em, e: css(em, e, '@kf+m10', 'C1', None, None, '@@property')),
     ('css_value', lambda em, e: css(em, e, 'c+fs', 'C1', None, None, 'align-content')),
     ('css_sass_json', lambda em, e: em.expand('p10+bgc#f', {'type': 'stylesheet', 'syntax': 'sass', 'cache': e['C1'],
                                                              'options': {'stylesheet.json': True}})),
     ('m_cachekey', lambda em, e: em.expand('ul>li', {'cache': e['C1']})),
+    ('g_xml', lambda em, e: em.expand('img+zz+!!!', {'syntax': 'xml'}, e['G'])),
+    ('g_html', lambda em, e: em.expand('img+zz+!!!', {}, e['G'])),
+    ('g_pug', lambda em, e: em.expand('zz+!!!', {'syntax': 'pug'}, e['G'])),
+    ('g_css', lambda em, e: em.expand('p10', {'type': 'stylesheet', 'cache': e['C2']}, e['G'])),
+    ('m_doctype', lambda em, e: em.expand('!!!+tm', e['A'])),
+    ('m_xsl', lambda em, e: em.expand('!!!+tm', {'syntax': 'xsl'})),
 ]
 OPNAMES = [o[0] for o in OPS]
 
@@ -217,7 +236,7 @@ def canon(em, env, leak):
         ('A', cfg_canon(env['A'])), ('T', cfg_canon(env['T'])), ('B', cfg_canon(env['B'])),
         ('O', cfg_canon(o.user_config), o.type, o.syntax, repr(o.context), fp(o.snippets), fp(o.variables),
          tuple(sorted((k, repr(v)) for k, v in o.options.items() if not callable(v)))),
-        ('C1', fp(env['C1'])), ('C2', fp(env['C2'])),
+        ('C1', fp(env['C1'])), ('C2', fp(env['C2'])), ('G', repr(env['G'])),
         ('modules', module_state()),
         ('leak', leak > 0),
     )
@@ -258,6 +277,8 @@ def initial_config_ok(env):
         bad.append('O')
     if cfg_canon(env['B']) != cfg_canon({'options': {'bem.enabled': True}}):
         bad.append('B')
+    if env['G'] != GLOBAL_CFG:
+        bad.append('G')
     return bad
 
 
@@ -297,7 +318,13 @@ def leak_probe(i):
 
 
 def shards(tier):
-    return [dict(first=i) for i in range(len(OPS))] + [dict(leak=i) for i in range(len(OPS))]
+    """quick: one global BFS from the fresh state (every (state, operation) transition once, to the fixpoint) plus, independent of
+    the state abstraction, all histories of length 2 in parallel; thorough: additionally one BFS per first operation with
+    abstraction validation."""
+    out = [dict(globalbfs=True)] + [dict(pairs=i) for i in range(len(OPS))] + [dict(leak=i) for i in range(len(OPS))]
+    if tier == 'thorough':
+        out += [dict(first=i) for i in range(len(OPS))]
+    return out
 
 
 def run_shard(shard, ctx, tier):
@@ -310,13 +337,34 @@ def run_shard(shard, ctx, tier):
         for cls, d in leak_probe(i):
             ctx.violation(cls, dict(leak_probe=OPNAMES[i]), d)
         return
+    if 'pairs' in shard:
+        i = shard['pairs']
+        for j in range(len(OPS)):
+            h = [i, j]
+            ctx.tick(h)
+            k, bad, leak = examine(h)
+            ctx.transitions += 1
+            ctx.evals += 2
+            ctx.validated += 1
+            ctx.nontrivial += 1
+            ctx.stateset.add(hash(k))
+            ctx.outcome((j, bad == []))
+            for cls, d in bad:
+                ctx.violation(cls, dict(history=[OPNAMES[x] for x in h]), d)
+        ctx.sample(dict(pairs_after=OPNAMES[i]))
+        return
     depth = BOUNDS[tier]['depth']
-    first = shard['first']
     FR = fresh_results()
     seen = {}
     results_of = {}
     frontier = collections.deque()
-    h0 = [first]
+    if shard.get('globalbfs'):
+        first = None
+        h0 = []
+        depth = BOUNDS[tier]['global_depth']
+    else:
+        first = shard['first']
+        h0 = [first]
     ctx.tick(h0)
     k0, bad, leak = examine(h0)
     ctx.transitions += 1
@@ -352,7 +400,7 @@ def run_shard(shard, ctx, tier):
                 seen[k] = h
                 ctx.stateset.add(hash(k))
                 frontier.append(h)
-            elif len(h) <= 2 and tier == 'thorough':
+            elif len(h) <= 2 and tier == 'thorough' and first is not None:
                 # abstraction validation: h reached a known state by another path; all operations must behave alike
                 rep = seen[k]
                 for j in range(len(OPS)):
@@ -365,7 +413,8 @@ def run_shard(shard, ctx, tier):
                             [OPNAMES[x] for x in h], [OPNAMES[x] for x in rep], OPNAMES[j]))
     ctx.extra['bfs_fixpoint_reached' if complete else 'bfs_stopped_at_depth_bound'] += 1
     ctx.extra['max_depth_%d' % maxd] += 1
-    ctx.sample(dict(first=OPNAMES[first], states=len(seen), example_history=[OPNAMES[j] for j in list(seen.values())[-1]]))
+    ctx.sample(dict(first=OPNAMES[first] if first is not None else '(global BFS from the fresh state)', states=len(seen),
+                    example_history=[OPNAMES[j] for j in list(seen.values())[-1]]))
 
 
 def check_case(case):
